@@ -239,6 +239,12 @@ class Model:
 
     def _index_class(self, m, c, prefix):
         for d in c.node.decorator_list:
+            if isinstance(d, ast.Name):
+                # a decorator bound once at module level:  _dask_method = DaskStream.register_api()
+                binds = [n.value for n in m.tree.body if isinstance(n, ast.Assign)
+                         and any(isinstance(t, ast.Name) and t.id == d.id for t in n.targets)]
+                if len(binds) == 1:
+                    d = binds[0]
             if isinstance(d, ast.Call) and isinstance(d.func, ast.Attribute) and d.func.attr == 'register_api':
                 mod = src(d.args[0]) if d.args else None
                 attr = None
